@@ -92,7 +92,7 @@ MANIFEST = dict(
          'disagreements, none occurs). The annotation tests are modelled as one stage after the type passes (the code '
          'applies annotations while it creates each member and validates redactors in a last pass): the same verdict; '
          'when a spec breaks an annotation rule AND a type rule met later in pass 3 the code reports the former, the '
-         'model the latter. Patches are taken in file order (the code groups them by canonical name first). Route attributes are checked as a last stage over the compiled types (the code does it inside the route pass, before the redactors are validated: the same verdict); the value test of a route attribute is C10`s IrCheck.check behind an adapter (compiled type -> IrTy; the bounds of float types are re-encoded to IEEE bits by `bitsOfFVal`, an unverified 10-line encoder exercised by the float seeds), its external calls are answered by the driver from tables the harness computes with CPython (float(n), float(n) == n, re with \\A(?:p)\\Z, strptime) and evaluated under both table-miss policies; a message of `<Type>.check` is judged as the value of a route attribute only when the InvalidSpec points at the line of one (defaults of fields raise the same messages: C10); a real CRASH where the model refuses (List / Map / struct attribute given a value when the `cannot be set` test is removed) is counted, not judged (C03); the validated attribute dictionary of a route is not part of the model`s output. Not judged: booleans used as numeric arguments, null for an optional argument, min > max for '
+         'model the latter. Patches are taken in file order (the code groups them by canonical name first). Route attributes are checked as a last stage over the compiled types (the code does it inside the route pass, before the redactors are validated: the same verdict); the value test of a route attribute is C10`s IrCheck.check behind an adapter (compiled type -> IrTy; the bounds of float types are re-encoded to IEEE bits by `bitsOfFVal`, an unverified 10-line encoder exercised by the float seeds), its external calls are answered by the driver from tables the harness computes with CPython (float(n), float(n) == n, re with \\A(?:p)\\Z, strptime) and evaluated under both table-miss policies; a message of `<Type>.check` is judged as the value of a route attribute only when the InvalidSpec points at the line of one (defaults of fields raise the same messages: C10); a real CRASH where the model refuses (List / Map / struct attribute given a value when the `cannot be set` test is removed) is counted, not judged (C03); the validated attribute dictionary of a route is not part of the model`s output. When a spec has several violations and the model`s order of stages meets another one first than the code (applied annotation vs type rule; route attribute vs the types of a later route or a redactor rule) both refuse and comp.compile counts the pair of kinds as not judged (comp.not_judged.two_violations_other_stage_first). Not judged: booleans used as numeric arguments, null for an optional argument, min > max for '
          'numeric bounds, indentation of the first line of a file, which of several errors is reported, Void as a List / '
          'Map element, whether a String pattern must cover the whole example string or only a prefix, a non-string where '
          'a Timestamp is expected, a `:type:` / `:field:` reference through an alias of a struct, the case of a reference tag, '
